@@ -131,6 +131,8 @@ func (h hBase) OnRequest(sc *gortsplib.ServerConn, req *base.Request) {
 	tag := ""
 	if v, ok := req.Header["X-Verif"]; ok && len(v) == 1 {
 		tag = v[0]
+	} else if v, ok := req.Header["User-Agent"]; ok && len(v) == 1 && strings.HasPrefix(v[0], "verif:") {
+		tag = v[0] // library clients identify themselves through Client.UserAgent
 	}
 	h.c.log(Event{Kind: "request", Conn: sc, Method: req.Method, Info: cseqOf(req.Header), Tag: tag})
 }
@@ -434,6 +436,12 @@ func StartServer(o ServerOpts) (*TestServer, error) {
 	}
 	if o.ListenIP == "" {
 		o.ListenIP = "127.0.0.1"
+		if o.Multicast {
+			// multicast needs an interface with the MULTICAST flag (the loopback has none)
+			if ip := MulticastIP(); ip != "" {
+				o.ListenIP = ip
+			}
+		}
 	}
 	var lastErr error
 	for attempt := 0; attempt < 20; attempt++ {
@@ -493,6 +501,29 @@ func StartServer(o ServerOpts) (*TestServer, error) {
 		return ts, nil
 	}
 	return nil, lastErr
+}
+
+// MulticastIP returns an IPv4 address of a multicast-capable interface ("" if none).
+func MulticastIP() string {
+	ifs, err := net.Interfaces()
+	if err != nil {
+		return ""
+	}
+	for _, intf := range ifs {
+		if intf.Flags&net.FlagMulticast == 0 || intf.Flags&net.FlagUp == 0 {
+			continue
+		}
+		addrs, err := intf.Addrs()
+		if err != nil {
+			continue
+		}
+		for _, a := range addrs {
+			if n, ok := a.(*net.IPNet); ok && n.IP.To4() != nil {
+				return n.IP.String()
+			}
+		}
+	}
+	return ""
 }
 
 func hostLit(ip string) string {
